@@ -364,13 +364,19 @@ def failed_api_clauses(verdict):
 
 # ------------------------------------------------------------------ replay (spec -> code)
 
+_NCALL = [0]
+
+
 def compare_case(doc, letters=AA, api=None):
     """Step one TLC-emitted behaviour through the real code. Returns (api_mismatches, drift_mismatches)."""
     inp = doc["inp"]
     api_bad, drift = [], []
     want = sorted(map(tuple, doc["trip"]))
+    _NCALL[0] += 1
+    # every fifth call goes through the progress-bar code path where the function has one (the bar itself is disabled)
+    extra = dict(progress=True) if (_NCALL[0] % 5 == 0 and api in ("symdel", "hash_based", "LookupDB")) else None
     try:
-        got_list = norm_triplets(call_engine(inp, letters, api=api), inp["mode"])
+        got_list = norm_triplets(call_engine(inp, letters, api=api, extra=extra), inp["mode"])
     except Exception as e:     # noqa: BLE001
         return [("Join", "raised", f"{type(e).__name__}: {e}"[:200])], drift
     got = sorted(map(tuple, got_list))
